@@ -33,10 +33,17 @@ type c12Case struct {
 	extraMsat uint64
 }
 
+// c12WorldDone, if set, is called with every finished C12 world before it is closed.
+var c12WorldDone func(w *sim.World, c c12Case)
+
 func runC12(r *Run, seed int64, c c12Case) {
 	rng := mrand.New(mrand.NewSource(seed))
 	w := sim.NewWorld(seed)
 	defer w.Close()
+	if c12WorldDone != nil {
+		// another monitor wants to look at the finished world (C23 scans the messages of these adversarial histories)
+		defer func() { c12WorldDone(w, c) }()
+	}
 	cfg := sim.DefaultNodeConfig()
 	if c.rich {
 		cfg.BtcBalance, cfg.LbtcBalance = 1<<63, 1<<63
@@ -283,5 +290,7 @@ func TestC12(t *testing.T) {
 	parallelDo(len(cases), 12, func(i int) { runC12(r, r.Seed*7121+int64(i)+1, cases[i]) })
 	// responder clause on a slice of the C11 workload
 	parallelDo(r.N(30, 600), 8, func(i int) { runC11World(r, r.Seed*911+int64(i)+1, 6) })
+	// ... and on a rate table whose twelve entries all differ, with zero rates in front of non-zero ones
+	parallelDo(r.N(3, 60), 8, func(i int) { runResponderPremium(r, "C12|responder-premium-differs", r.Seed*433+int64(i)+1) })
 	r.Sample(map[string]any{"role": "in-initiator", "amount": 1_000_000, "limit_ppm": 10_000, "agreement_premium": -1_000_001, "expectation": "no funding, or a swap output of exactly amount+premium"})
 }
